@@ -254,28 +254,55 @@ theorem ptr_simulated (kind : Kind) (h : Nat → Nat) (ops : List Op) (ps : PSta
             exact ⟨by rw [h1.1, ih'.1], ih'.2⟩
 
 open Ptr in
+/-- from every pair of coupled states satisfying the invariant the pointer-level model yields exactly the results of
+    the association-list specification, and rejects exactly the op lists the specification rejects -/
+theorem ptr_refines_from (kind : Kind) (h : Nat → Nat) (ops : List Op) (ps : PState) (s : State)
+    (hp : PRel ps s) (hs : SInv h s) :
+    (prun kind h ps ops).map (fun r => r.2) = (Spec.run kind (abs s) ops).map (fun r => r.2) := by
+  have h1 := ptr_simulated kind h ops ps s hp hs
+  have h2 := refines_from kind h ops s hs
+  rw [← h2]
+  cases hpr : prun kind h ps ops with
+  | none =>
+    rw [hpr] at h1
+    cases hr : run kind h s ops with
+    | none => rfl
+    | some r => rw [hr] at h1; exact False.elim h1
+  | some pr =>
+    rw [hpr] at h1
+    cases hr : run kind h s ops with
+    | none => rw [hr] at h1; exact False.elim h1
+    | some r =>
+      rw [hr] at h1
+      simp only [Option.map_some, Option.some.injEq]
+      exact h1.1
+
+open Ptr in
 /-- C02 at pointer level: for every hash function, container kind and op list the pointer-level model started with two
     default-constructed tables yields exactly the results of the association-list specification and never faults
     on an op list the specification accepts -/
 theorem ptr_refines (kind : Kind) (h : Nat → Nat) (ops : List Op) :
     (prun kind h pinit ops).map (fun r => r.2) = (Spec.run kind Spec.init ops).map (fun r => r.2) := by
-  have h1 := ptr_simulated kind h ops pinit init pinit_rel (init_inv h)
-  have h2 := refines kind h ops
-  rw [← h2]
-  cases hp : prun kind h pinit ops with
-  | none =>
-    rw [hp] at h1
-    cases hr : run kind h init ops with
-    | none => rfl
-    | some r => rw [hr] at h1; exact absurd h1 id
-  | some pr =>
-    rw [hp] at h1
-    cases hr : run kind h init ops with
-    | none => rw [hr] at h1; exact absurd h1 id
-    | some r =>
-      rw [hr] at h1
-      simp only [Option.map_some, Option.some.injEq]
-      exact h1.1
+  rw [← abs_init]
+  exact ptr_refines_from kind h ops pinit init pinit_rel (init_inv h)
+
+open Ptr in
+/-- … and for EVERY pair of capacities (0 becomes 1 as in the code), in particular capacity 1 with a constant hash -/
+theorem ptr_refines_every_capacity (kind : Kind) (h : Nat → Nat) (c0 c1 : Nat) (ops : List Op) :
+    (prun kind h ⟨PTable.construct false c0, PTable.construct true c1⟩ ops).map (fun r => r.2)
+      = (Spec.run kind Spec.init ops).map (fun r => r.2) :=
+  ptr_refines_from kind h ops _ ⟨Table.construct c0, Table.construct c1⟩
+    ⟨fresh_rel false _, fresh_rel true _, rfl, rfl⟩ (inv_construct h c0 c1)
+
+open Ptr in
+/-- inserting a key that is already present, pointer level: `find` returns the existing item (whatever the collisions),
+    nothing is linked or allocated; HashMap overwrites only that item's value, HashSet/PoolMap return the table unchanged -/
+theorem ptr_insert_existing (kind : Kind) (h : Nat → Nat) (pt : PTable) (t : Table) (hr : Rel pt t) (hi : t.Inv h)
+    (pos : Nxt) (k v id : Nat) (hid : id ∈ t.order) (hk : (t.items id).key = k) :
+    pt.insert kind h pos k v =
+      some (if kind = Kind.map then { pt with items := upd pt.items id { pt.items id with value := v } } else pt, id) := by
+  unfold PTable.insert
+  rw [hr.find hi k, (hi.find_some_iff k id).2 ⟨hid, hk⟩]
 
 open Ptr in
 /-- structure of every reachable pointer-level table: there are id lists (`chain b`, `order`, `free`) such that every bucket
